@@ -2038,7 +2038,20 @@ type propsJSON struct {
 	MaxDownresLevel uint8
 }
 
+// copyMaxLabels returns a snapshot of the max label data taken under its mutex, since
+// background goroutines update MaxLabel while metadata is being marshaled.
+func (d *Data) copyMaxLabels() (map[dvid.VersionID]uint64, uint64) {
+	d.mlMu.RLock()
+	defer d.mlMu.RUnlock()
+	maxLabel := make(map[dvid.VersionID]uint64, len(d.MaxLabel))
+	for v, label := range d.MaxLabel {
+		maxLabel[v] = label
+	}
+	return maxLabel, d.MaxRepoLabel
+}
+
 func (d *Data) MarshalJSON() ([]byte, error) {
+	maxLabel, maxRepoLabel := d.copyMaxLabels()
 	vctx, err := datastore.NewVersionedCtxMasterLeaf(d)
 	if err != nil {
 		return json.Marshal(struct {
@@ -2048,8 +2061,8 @@ func (d *Data) MarshalJSON() ([]byte, error) {
 			d.Data.Data,
 			propsJSON{
 				Properties:      d.Data.Properties,
-				MaxLabel:        d.MaxLabel,
-				MaxRepoLabel:    d.MaxRepoLabel,
+				MaxLabel:        maxLabel,
+				MaxRepoLabel:    maxRepoLabel,
 				NextLabel:       d.NextLabel,
 				IndexedLabels:   d.IndexedLabels,
 				MaxDownresLevel: d.MaxDownresLevel,
@@ -2060,6 +2073,7 @@ func (d *Data) MarshalJSON() ([]byte, error) {
 }
 
 func (d *Data) MarshalJSONExtents(ctx *datastore.VersionedCtx) ([]byte, error) {
+	maxLabel, maxRepoLabel := d.copyMaxLabels()
 	// grab extent property and load
 	extents, err := d.GetExtents(ctx)
 	if err != nil {
@@ -2082,8 +2096,8 @@ func (d *Data) MarshalJSONExtents(ctx *datastore.VersionedCtx) ([]byte, error) {
 		d.Data.Data,
 		propsJSON{
 			Properties:      props,
-			MaxLabel:        d.MaxLabel,
-			MaxRepoLabel:    d.MaxRepoLabel,
+			MaxLabel:        maxLabel,
+			MaxRepoLabel:    maxRepoLabel,
 			NextLabel:       d.NextLabel,
 			IndexedLabels:   d.IndexedLabels,
 			MaxDownresLevel: d.MaxDownresLevel,
